@@ -30,7 +30,7 @@ def _build(out, tdir, toolchain=None, rustflags=None, chk=None):
             os.remove(b)
         r = common.run(base + ["--no-default-features", "--features", "track-alloc"], cwd=out, env=common.env_with({"RUSTFLAGS": rustflags} if rustflags else None), timeout=3600)
         if r["rc"] == 0 and os.path.exists(b) and chk is not None:
-            chk.incon("multi-trait cast probes do not build on this tree (core layout probes were run without them): %s" % first_err[-600:])
+            chk.incon("the probes that name generated items (vtable getters, multi-trait cast functions) do not build on this tree; the size/word probes were run without them: %s" % first_err[-600:])
     if r["timed_out"] or r["rc"] != 0 or not os.path.exists(b):
         raise Inconclusive("layout probe build failed (%s %s): %s" % (toolchain, rustflags, r["err"][-4000:]))
     return b
